@@ -66,7 +66,10 @@ def run(ctx):
             # an onboarded device whose answer to the "are you onboarded?" question is lost or is an error
             combos += [("valid", False, ["yes"], f) for f in (0x6E00, 0x6F01, 0x6985, 0x6B01, ("T",), ("W",), ("R",))]
         for pin_kind, any_pin, ans, onb_fault in combos:
-            typed = [b"zz", b"12345678", b"longerthan8x", b"good1234"] if pin_kind is None else []
+            # typed PINs: too short, compliant but wrapped in blanks (what is validated must be what is sent),
+            # digits only, too long, and finally a compliant one
+            typed = [b"zz", b"abcd1234 ", b"\tx1y2z3w4", b"1234567a\r", b" good1234", b"12345678",
+                     b"longerthan8x", b"good1234"] if pin_kind is None else []
             seed = gen.rbytes(rng, 32)
             d = devices.Device(mode=mode, onboarded=onb, sgx=(kind == "sgx"))
             d.echo_bad = echo_bad
@@ -109,6 +112,40 @@ def run(ctx):
             terms.append(admincmd.to_dcase("onboard", kind, opt, ans, typed, seed, None, obs))
             descs.append({"cmd": "onboard", "state": [kind, mode, onb, echo_bad, pin_kind, any_pin, ans],
                           "outcome": obs["outcome"], "error": obs["error"]})
+        # ---------------- onboard (Ledger), continued through "disconnect and re-connect" and the unlock step that
+        # precedes the attestation setup: whatever shows up after the re-connection, a PIN goes only to an
+        # onboarded device in bootloader mode
+        if kind == "ledger" and mode == 2 and not onb and not echo_bad:
+            for post in ({}, {"onboarded": False}, {"mode": 3}, {"mode": 4}, {"mode": 0xFF},
+                         {"mode": 3, "onboarded": False}, {"echo_bad": True}):
+                for pin_kind in ("valid", None):
+                    seed = gen.rbytes(rng, 32)
+                    d = devices.Device(mode=2, onboarded=False)
+                    d.after_wipe = dict(post)
+                    d.after_exit = [3, 3]
+                    typed = [b"good1234", b"good1234"] if pin_kind is None else []
+                    opt = admincmd.Opt(pin=PINS.get(pin_kind), any_pin=False,
+                                       output_file_path=os.path.join(tmp, "att.json"))
+                    obs = admincmd.run_admin("onboard", kind, opt, ["yes", ""], typed, seed, device=d,
+                                             through_unlock=True)
+                    account(res, dist, "onboard+unlock", obs)
+                    apdus = [e[1] for e in obs["trace"] if e[0] == "A"]
+                    wipe_at = next((i for i, a in enumerate(apdus) if a[1] == 0x07), None)
+                    if wipe_at is None:
+                        res["violations"].append({"key": "C18:onboard-not-carried-out", "what": "preconditions "
+                                                  "hold but no WIPE was sent (%s)" % obs["error"]})
+                        continue
+                    later_pin = [a for a in apdus[wipe_at + 1:] if a[1] in (0x41, 0xFE)]
+                    ok_state = d.onboarded and post.get("mode", 2) == 2 and not post.get("echo_bad")
+                    if later_pin and not ok_state:
+                        res["violations"].append({
+                            "key": "C18:unlock-precondition", "what": "after onboarding and re-connection a PIN was "
+                            "sent to a device that is not (onboarded, bootloader, echo ok)", "state": [post, pin_kind]})
+                    if ok_state and not any(a[1] == 0xFE for a in apdus[wipe_at + 1:]):
+                        res["violations"].append({
+                            "key": "C18:onboard-unlock-not-carried-out", "what": "the freshly onboarded device came "
+                            "back onboarded in bootloader mode but was not unlocked (%s)" % obs["error"],
+                            "state": [post, pin_kind]})
         # ---------------- unlock
         for pin_kind, any_pin in itertools.product(["valid", "short", "symbols", None], [False, True]):
             typed = [b"bad!", b"abc123"] if pin_kind is None else []
@@ -133,7 +170,8 @@ def run(ctx):
             cp_combos += [(pk, ap, True) for pk in ODD_PINS for ap in (False, True)]
             cp_combos += [("typed-odd", False, True)]
         for new_kind, any_pin, no_unlock in cp_combos:
-            typed = ([b"abcd1234"] if not no_unlock else []) + ([b"12", b"newpin12"] if new_kind is None else [])
+            typed = ([b"abcd1234"] if not no_unlock else []) + \
+                ([b"12", b"newpin12 ", b"\nnewpin12", b"newpin12"] if new_kind is None else [])
             if new_kind == "typed-odd":
                 typed = ["clave1\u00f3".encode(), "123456\u00fc".encode(), b"newpin12"]
                 new_kind = None
